@@ -948,7 +948,7 @@ theorem loadHistory_sealed (n : String) (cs : List Node) (w : Written) (hcs : no
   have hchk : checkStore (Node.dir n cs (some (({} : HistStore).add w))).hist = .ok () := by
     simp [Node.hist, checkStore, HistStore.add, checkChain, hst, pure, Except.pure, bind, Except.bind]
   rw [hchk]
-  simp [Node.hist, buildHist, loadGens, HistStore.add, hst, hparse, bind, Except.bind, pure, Except.pure]
+  simp [Node.hist, buildHist, loadGens, HistStore.add, HistStore.lists, hst, hparse, bind, Except.bind, pure, Except.pure]
 
 theorem foldl_appendNew_of_subset (l acc : List String) (h : ∀ x ∈ l, x ∈ acc) : l.foldl appendNew acc = acc := by
   induction l with
